@@ -62,6 +62,56 @@ def replay_depth():
         return False, f"RecursionError: {ex}"
 
 
+def check_standard(arg):
+    """a standard access list whose body contains an extended entry: the line is an item that means what was written, or it is reported"""
+    import cisco_acl
+    from spec import cisco_ref, sets
+    body, = arg
+    root = logging.getLogger()
+    cap = Capture()
+    old_level = root.level
+    root.addHandler(cap)
+    root.setLevel(logging.DEBUG)
+    try:
+        try:
+            acl = cisco_acl.Acl("\n".join(["ip access-list standard S"] + [" " + l for l in body]), platform="ios")
+        except (ValueError, TypeError):
+            return [], 1
+    finally:
+        root.removeHandler(cap)
+        root.setLevel(old_level)
+    items = [o.line for o in acl.items]
+    warns = " | ".join(m for lvl, m in cap.records)
+    fails = []
+    for l in body:
+        toks = l.split()
+        extended = len(toks) > 3 and toks[1] in ("tcp", "udp", "ip", "icmp")
+        if not extended:
+            continue
+        if l in warns:
+            continue
+        want = cisco_ref.read_ace(l, "ios").sem
+        ok = False
+        for it in items:
+            try:
+                got = cisco_ref.read_ace(it, "ios").sem
+            except cisco_ref.RefError:
+                # a standard entry: permit/deny + source address only -> any protocol, any destination, no ports
+                try:
+                    t = it.split()
+                    got = cisco_ref.read_ace(f"{t[0]} ip {' '.join(t[1:])} any", "ios").sem
+                except cisco_ref.RefError:
+                    continue
+            if sets.sem_equal(got, want) is None:
+                ok = True
+        if not ok:
+            fails.append(dict(key="bounded/Acl(text):standard-list-rewrites-extended-line", what=f"body line {l!r} of a standard access list is neither reported nor "
+                              f"represented: items are {items}", inputs=dict(body=list(body)),
+                              cmd=("import sys; sys.path.insert(0, 'props'); import C12\n"
+                                   f"fails, _ = C12.check_standard({arg!r})\nprint([f['what'] for f in fails]); sys.exit(1 if fails else 0)\n")))
+    return fails, 1
+
+
 def check_acl(arg):
     """accounting identity for Acl / AceGroup built from text with a capturing log handler"""
     import cisco_acl
@@ -242,6 +292,17 @@ def main(chk):
                     f"all sequences of <= {n} body lines over {len(kinds)} line kinds (valid, ignorable, invalid); capturing log handler", viol, time.time() - t0,
                     [list(cases[77][0])], exhaustive=(chk.tier != "quick"))
     t0 = time.time()
+    t0 = time.time()
+    scases = [((("permit host 1.1.1.1", "permit tcp any any eq 80")),), ((("permit tcp any any eq 80", "permit host 1.1.1.1")),), ((("permit 10.0.0.0 0.0.0.255", "deny ip any host 2.2.2.2", "deny any")),),
+              ((("permit host 1.1.1.1", "deny any")),)]
+    res = pmap(check_standard, scases)
+    viol = 0
+    for fails, _ in res:
+        for f in fails:
+            viol += 1
+            chk.finding(f["key"], f["what"], inputs=f["inputs"], cmd=f.get("cmd"), key=f["key"])
+    chk.add_bounded("standard access list with extended entries in its body: represented with its meaning, or reported", len(scases), len(scases), "4 bodies", viol,
+                    time.time() - t0, [list(scases[0][0])], exhaustive=True)
     cases = [(s, p) for p in ("ios", "nxos") for k in range(1, n + 1) for s in itertools.product(list(KINDS_AG[p]), repeat=k)]
     res = pmap(check_ag, cases)
     viol = 0
